@@ -1,9 +1,12 @@
 /-
 Proofs.HolidaySpec — the substring-search lookups of `HolidayUtil` (`findForward` / `findBackward`,
 with the re-alignment to the 18-character grid after a possibly MIS-ALIGNED `strings.Index` hit)
-characterised over abstract lists of 18-character records, the forward / backward views as runs
-and (under sortedness / contiguity) as filters, necessity of the contiguity hypothesis for the
-by-target view, and the working-day stepping loop.
+characterised over abstract lists of 18-character records; the forward view as a run and (under
+sortedness) as a filter; the by-target view `findHolidaysBackward` (after the `fix:` commit: every
+aligned record with the key as a suffix) as a filter, UNCONDITIONALLY; the old by-target algorithm
+(`hol_findHolidaysBackwardOld`: one contiguous run) with the contiguity hypothesis it needed and
+the necessity of it; `Fix` with one segment (sorted insertion of a new day, removal of an absent day,
+replacement / removal of a present day); and the working-day stepping loop.
 -/
 import Model.Holiday
 import Proofs.CivilArith
@@ -589,13 +592,20 @@ theorem collectBackward_flat (st : HolidayState) (key : List Char) (hk : 1 ≤ k
       · have hc' : isSuffix key r = false := by simpa using hc
         simp [hc']
 
-theorem backwardRun_spec0 (st : HolidayState) (recs : List (List Char)) (key : List Char)
+/-- the by-target lookup as it was BEFORE the `fix:` commit of the library: ONE contiguous run of
+records, ending at the last record found by `strings.LastIndex` (kept here, with its specification,
+to document why that algorithm was wrong; the model's `findHolidaysBackward` no longer uses it) -/
+def hol_findHolidaysBackwardOld (st : HolidayState) (key : List Char) : Option (List Holiday) :=
+  let s := findBackward st.data key
+  if s.isEmpty then some [] else collectBackward st key (s.length / recSize + 2) s []
+
+theorem hol_backwardRunOld_spec0 (st : HolidayState) (recs : List (List Char)) (key : List Char)
     (hd : st.data = flat0 recs) (hw : WF0 recs)
     (hk : 1 ≤ key.length ∧ key.length ≤ 18) (hb : ∀ r ∈ recs, (buildForward st r).isSome = true) :
-    findHolidaysBackward st key =
+    hol_findHolidaysBackwardOld st key =
       some (((recs.reverse.dropWhile (fun r => !isSuffix key r)).takeWhile (fun r => isSuffix key r)).reverse.filterMap
         (buildForward st)) := by
-  unfold findHolidaysBackward
+  unfold hol_findHolidaysBackwardOld
   rw [hd, findBackward_spec0 recs key hw hk]
   have hwp : WF0 (recs.reverse.dropWhile (fun r => !isSuffix key r)) :=
     fun r hr => hw r (List.mem_reverse.1 ((List.dropWhile_sublist _).subset hr))
@@ -652,14 +662,15 @@ theorem isSuffix8 (key r : List Char) (hk : key.length = 8) (hr : r.length = 18)
   · intro h
     exact ⟨r.take 10, by rw [← h, List.take_append_drop]⟩
 
-theorem backward_view_eq_filter0 (st : HolidayState) (recs : List (List Char)) (key : List Char)
+/-- the OLD algorithm returned the by-target filter only under contiguity of the target's records -/
+theorem hol_backwardOld_view_eq_filter0 (st : HolidayState) (recs : List (List Char)) (key : List Char)
     (hd : st.data = flat0 recs) (hw : WF0 recs)
     (hk : key.length = 8) (hb : ∀ r ∈ recs, (buildForward st r).isSome = true)
     (hc : ∀ a b c : List Char, ∀ l1 l2 l3 l4, recs = l1 ++ [a] ++ l2 ++ [b] ++ l3 ++ [c] ++ l4 →
       a.drop 10 = key → c.drop 10 = key → b.drop 10 = key) :
-    findHolidaysBackward st key =
+    hol_findHolidaysBackwardOld st key =
       some ((recs.filter (fun r => r.drop 10 == key)).filterMap (buildForward st)) := by
-  rw [backwardRun_spec0 st recs key hd hw ⟨by omega, by omega⟩ hb]
+  rw [hol_backwardRunOld_spec0 st recs key hd hw ⟨by omega, by omega⟩ hb]
   have hconv : Convex (fun r => isSuffix key r) recs.reverse := by
     intro a b c l1 l2 l3 l4 hl ha hc'
     have hrec : recs = l4.reverse ++ [c] ++ l3.reverse ++ [b] ++ l2.reverse ++ [a] ++ l1.reverse := by
@@ -677,6 +688,54 @@ theorem backward_view_eq_filter0 (st : HolidayState) (recs : List (List Char)) (
   apply List.filter_congr
   intro r hr
   exact isSuffix8 key r hk (hw r hr)
+
+/-! ### the current algorithm: every aligned record with the key as a suffix -/
+
+theorem hol_alignedRecords_flat0 (l : List (List Char)) (hw : WF0 l) (fuel : Nat) (hf : l.length < fuel) :
+    alignedRecords fuel (flat0 l) = l := by
+  induction l generalizing fuel with
+  | nil =>
+    cases fuel with
+    | zero => omega
+    | succ f => simp [alignedRecords, flat0_nil, recSize]
+  | cons r rs ih =>
+    cases fuel with
+    | zero => omega
+    | succ f =>
+      rw [WF0_cons] at hw
+      have hl : ¬ (flat0 (r :: rs)).length < recSize := by
+        rw [flat0_cons, List.length_append, hw.1]; simp [recSize]
+      have ht : (flat0 (r :: rs)).take recSize = r := by
+        rw [flat0_cons]; exact List.take_left' (by rw [hw.1, recSize])
+      have hd : (flat0 (r :: rs)).drop recSize = flat0 rs := by
+        rw [flat0_cons, recSize, ← hw.1, List.drop_left]
+      unfold alignedRecords
+      rw [if_neg hl, ht, hd, ih hw.2 f (by simpa using hf)]
+
+theorem hol_mapM_all_some {α β} (f : α → Option β) (l : List α) (h : ∀ x ∈ l, (f x).isSome = true) :
+    l.mapM f = some (l.filterMap f) := by
+  induction l with
+  | nil => simp
+  | cons a t ih =>
+    have ha := h a (by simp)
+    rw [Option.isSome_iff_exists] at ha
+    obtain ⟨b, hb⟩ := ha
+    rw [List.mapM_cons, hb, ih (fun x hx => h x (by simp [hx])), List.filterMap_cons_some hb]
+    rfl
+
+theorem hol_backward_view_eq_filter0 (st : HolidayState) (recs : List (List Char)) (key : List Char)
+    (hd : st.data = flat0 recs) (hw : WF0 recs)
+    (hk : key.length = 8) (hb : ∀ r ∈ recs, (buildForward st r).isSome = true) :
+    findHolidaysBackward st key =
+      some ((recs.filter (fun r => r.drop 10 == key)).filterMap (buildForward st)) := by
+  unfold findHolidaysBackward
+  rw [hd, hol_alignedRecords_flat0 recs hw _ (by rw [flat0_length _ hw, recSize]; omega)]
+  have e : recs.filter (fun r => isSuffix key r) = recs.filter (fun r => r.drop 10 == key) := by
+    apply List.filter_congr
+    intro r hr
+    exact isSuffix8 key r hk (hw r hr)
+  rw [e]
+  exact hol_mapM_all_some _ _ (fun r hr => hb r (List.mem_filter.1 hr).1)
 
 /-! ## stated theorems (forward) -/
 
@@ -706,33 +765,48 @@ theorem findBackward_spec (recs : List Rec) (key : List Char) (hw : WF recs) (hk
     findBackward (flat recs) key = flat ((recs.reverse.dropWhile (fun r => !isSuffix key r)).reverse) :=
   findBackward_spec0 recs key hw hk
 
+theorem alignedRecords_flat (recs : List Rec) (hw : WF recs) :
+    alignedRecords ((flat recs).length / recSize + 1) (flat recs) = recs :=
+  hol_alignedRecords_flat0 recs hw _ (by
+    rw [show (flat recs).length = (flat0 recs).length from rfl, flat0_length _ hw, recSize]; omega)
+
+/-- the by-target view is the filter, unconditionally (no contiguity hypothesis any more) -/
 theorem backward_view_eq_filter (st : HolidayState) (recs : List Rec) (key : List Char) (hd : st.data = flat recs) (hw : WF recs)
+    (hk : key.length = 8) (hb : ∀ r ∈ recs, (buildForward st r).isSome = true) :
+    findHolidaysBackward st key = some ((recs.filter (fun r => targetOf r == key)).filterMap (buildForward st)) :=
+  hol_backward_view_eq_filter0 st recs key hd hw hk hb
+
+/-- what the OLD algorithm (`hol_findHolidaysBackwardOld`) computed: the filter only if the records with
+that target are contiguous -/
+theorem hol_backwardOld_view_eq_filter (st : HolidayState) (recs : List Rec) (key : List Char) (hd : st.data = flat recs) (hw : WF recs)
     (hk : key.length = 8) (hb : ∀ r ∈ recs, (buildForward st r).isSome = true)
     (hc : ∀ a b c : Rec, ∀ l1 l2 l3 l4, recs = l1 ++ [a] ++ l2 ++ [b] ++ l3 ++ [c] ++ l4 → targetOf a = key → targetOf c = key → targetOf b = key) :
-    findHolidaysBackward st key = some ((recs.filter (fun r => targetOf r == key)).filterMap (buildForward st)) :=
-  backward_view_eq_filter0 st recs key hd hw hk hb hc
+    hol_findHolidaysBackwardOld st key = some ((recs.filter (fun r => targetOf r == key)).filterMap (buildForward st)) :=
+  hol_backwardOld_view_eq_filter0 st recs key hd hw hk hb hc
 
 theorem WF0_of_all (l : List (List Char)) (h : l.all (fun r => r.length == 18) = true) : WF0 l := by
   intro r hr
   have := List.all_eq_true.1 h r hr
   simpa using this
 
-/-- the contiguity hypothesis is necessary: three well-formed, buildable records, the first and the
-last with target 20200101, the middle one with another target; the by-target view returns only
-the last record although two records carry the target -/
+/-- a fact about the OLD algorithm (`findBackward` / `collectBackward`, i.e. `hol_findHolidaysBackwardOld`):
+for it the contiguity hypothesis was necessary. Three well-formed, buildable records, the first and the
+last with target 20200101, the middle one with another target: the old by-target view returns only
+the last record although two records carry the target; the current `findHolidaysBackward` returns both -/
 theorem backward_contiguity_necessary :
     ∃ (st : HolidayState) (recs : List Rec) (key : List Char),
       st.data = flat recs ∧ WF recs ∧ key.length = 8 ∧
       (∀ r ∈ recs, (buildForward st r).isSome = true) ∧
-      (findHolidaysBackward st key).map List.length = some 1 ∧
-      (recs.filter (fun r => targetOf r == key)).length = 2 :=
+      (hol_findHolidaysBackwardOld st key).map List.length = some 1 ∧
+      (recs.filter (fun r => targetOf r == key)).length = 2 ∧
+      (findHolidaysBackward st key).map List.length = some 2 :=
   ⟨⟨"201912310020200101202001020120200102202001030120200101".toList, ["a"]⟩,
    ["201912310020200101".toList, "202001020120200102".toList, "202001030120200101".toList],
-   "20200101".toList, by decide, WF0_of_all ["201912310020200101".toList, "202001020120200102".toList, "202001030120200101".toList] (by decide), by decide, by decide, by decide, by decide⟩
+   "20200101".toList, by decide, WF0_of_all ["201912310020200101".toList, "202001020120200102".toList, "202001030120200101".toList] (by decide), by decide, by decide, by decide, by decide, by decide⟩
 
-example : ∃ st key, (findHolidaysBackward st key).map List.length = some 1 ∧
+example : ∃ st key, (hol_findHolidaysBackwardOld st key).map List.length = some 1 ∧
     ∃ recs : List Rec, st.data = flat recs ∧ WF recs ∧ (recs.filter (fun r => targetOf r == key)).length = 2 := by
-  obtain ⟨st, recs, key, h1, h2, _, _, h5, h6⟩ := backward_contiguity_necessary
+  obtain ⟨st, recs, key, h1, h2, _, _, h5, h6, _⟩ := backward_contiguity_necessary
   exact ⟨st, key, h5, recs, h1, h2, h6⟩
 
 /-- a mis-aligned `strings.Index` hit, kernel-checked: in these 5 records the key "01012002" first
@@ -745,9 +819,572 @@ example :
     indexOf "01012002".toList recs.flatten 0 = some 32 ∧
       findForward recs.flatten "01012002".toList = "010120020120010101".toList := by decide
 
+/-! ## `Fix` with a single 18-character segment (after the `fix:` commit: sorted insertion) -/
+
+theorem hol_cmpChars_irrefl (l : List Char) : cmpChars l l ≠ .lt := by
+  induction l with
+  | nil => simp [cmpChars]
+  | cons a t ih => simpa [cmpChars] using ih
+
+theorem hol_cmpChars_tri (a b : List Char) : cmpChars a b = .lt ∨ a = b ∨ cmpChars b a = .lt := by
+  induction a generalizing b with
+  | nil => cases b <;> simp [cmpChars]
+  | cons x xs ih =>
+    cases b with
+    | nil => simp [cmpChars]
+    | cons y ys =>
+      simp only [cmpChars]
+      by_cases hxy : x < y
+      · simp [hxy]
+      · by_cases hyx : y < x
+        · simp [hxy, hyx]
+        · have := char_eq_of_not_lt hxy hyx
+          subst this
+          simp only [hxy, if_false]
+          rcases ih ys with h | h | h
+          · exact Or.inl h
+          · exact Or.inr (Or.inl (by rw [h]))
+          · exact Or.inr (Or.inr h)
+
+theorem hol_cmpChars_lt_trans (a b c : List Char) (h1 : cmpChars a b = .lt) (h2 : cmpChars b c = .lt) :
+    cmpChars a c = .lt := by
+  induction a generalizing b c with
+  | nil =>
+    cases b with
+    | nil => simp [cmpChars] at h1
+    | cons y ys =>
+      cases c with
+      | nil => simp [cmpChars] at h2
+      | cons z zs => simp [cmpChars]
+  | cons x xs ih =>
+    cases b with
+    | nil => simp [cmpChars] at h1
+    | cons y ys =>
+      cases c with
+      | nil => simp [cmpChars] at h2
+      | cons z zs =>
+        simp only [cmpChars] at h1 h2 ⊢
+        by_cases hxy : x < y
+        · by_cases hyz : y < z
+          · simp [Char.lt_trans hxy hyz]
+          · by_cases hzy : z < y
+            · simp [hyz, hzy] at h2
+            · have : y = z := char_eq_of_not_lt hyz hzy
+              subst this; simp [hxy]
+        · by_cases hyx : y < x
+          · simp [hxy, hyx] at h1
+          · have : x = y := char_eq_of_not_lt hxy hyx
+            subst this
+            simp only [hxy, if_false] at h1
+            by_cases hxz : x < z
+            · simp [hxz]
+            · by_cases hzx : z < x
+              · simp [hxz, hzx] at h2
+              · simp only [hxz, hzx, if_false] at h2 ⊢
+                exact ih ys zs h1 h2
+
+theorem hol_isPrefix8 (key r : List Char) (hk : key.length = 8) : isPrefix key r = true ↔ r.take 8 = key := by
+  rw [isPrefix_iff]
+  constructor
+  · rintro ⟨t, rfl⟩
+    exact List.take_left' hk
+  · intro h
+    exact ⟨r.drop 8, by rw [← h, List.take_append_drop]⟩
+
+theorem hol_take8_length (seg : List Char) (hl : seg.length = 18) : (seg.take 8).length = 8 := by
+  rw [List.length_take, hl]; rfl
+
+/-- `getHoliday` of a day that no record has -/
+theorem hol_getHoliday_absent (st : HolidayState) (recs : List (List Char)) (key : List Char)
+    (hd : st.data = flat0 recs) (hw : WF0 recs) (hs : recs.Pairwise DayLt)
+    (hb : ∀ r ∈ recs, (buildForward st r).isSome = true) (hk : key.length = 8)
+    (hnew : ∀ r ∈ recs, r.take 8 ≠ key) : getHoliday st key = some none := by
+  unfold getHoliday
+  rw [forward_view_eq_filter st recs key hd hw hs ⟨by omega, by omega⟩ hb]
+  have : recs.filter (fun r => isPrefix key r) = [] := by
+    rw [List.filter_eq_nil_iff]
+    intro r hr hp
+    exact hnew r hr ((hol_isPrefix8 key r hk).1 hp)
+  rw [this]; rfl
+
+/-- `getHoliday` of a day that (exactly) one record has -/
+theorem hol_getHoliday_present (st : HolidayState) (pre post : List (List Char)) (r : List Char) (h : Holiday)
+    (hd : st.data = flat0 (pre ++ [r] ++ post)) (hw : WF0 (pre ++ [r] ++ post))
+    (hs : (pre ++ [r] ++ post).Pairwise DayLt)
+    (hb : ∀ x ∈ pre ++ [r] ++ post, (buildForward st x).isSome = true)
+    (hh : buildForward st r = some h) : getHoliday st (r.take 8) = some (some h) := by
+  have hr : r.length = 18 := hw r (by simp)
+  have hk := hol_take8_length r hr
+  unfold getHoliday
+  rw [forward_view_eq_filter st _ _ hd hw hs ⟨by omega, by omega⟩ hb]
+  rw [List.pairwise_append, List.pairwise_append] at hs
+  obtain ⟨⟨_, _, h1⟩, _, h2⟩ := hs
+  have e1 : pre.filter (fun x => isPrefix (r.take 8) x) = [] := by
+    rw [List.filter_eq_nil_iff]
+    intro x hx hp
+    have := h1 x hx r (by simp)
+    unfold DayLt at this
+    rw [(hol_isPrefix8 _ x hk).1 hp] at this
+    exact hol_cmpChars_irrefl _ this
+  have e2 : post.filter (fun x => isPrefix (r.take 8) x) = [] := by
+    rw [List.filter_eq_nil_iff]
+    intro x hx hp
+    have := h2 r (by simp) x hx
+    unfold DayLt at this
+    rw [(hol_isPrefix8 _ x hk).1 hp] at this
+    exact hol_cmpChars_irrefl _ this
+  have e3 : [r].filter (fun x => isPrefix (r.take 8) x) = [r] := by
+    rw [List.filter_cons_of_pos ((hol_isPrefix8 _ r hk).2 rfl)]; rfl
+  rw [List.filter_append, List.filter_append, e1, e2, e3]
+  simp [hh]
+
+/-- the records skipped by `insertSorted`: those whose day is smaller -/
+def hol_dayLtB (day : List Char) (r : List Char) : Bool := cmpChars (r.take 8) day == .lt
+
+/-- sorted insertion over records -/
+theorem hol_insertSorted_flat0 (day seg : List Char) (l : List (List Char)) (hw : WF0 l) (fuel : Nat)
+    (hf : l.length < fuel) :
+    insertSorted day seg fuel (flat0 l) =
+      flat0 (l.takeWhile (hol_dayLtB day) ++ [seg] ++ l.dropWhile (hol_dayLtB day)) := by
+  induction l generalizing fuel with
+  | nil =>
+    cases fuel with
+    | zero => omega
+    | succ f => simp [insertSorted, flat0, recSize]
+  | cons r rs ih =>
+    cases fuel with
+    | zero => omega
+    | succ f =>
+      rw [WF0_cons] at hw
+      have hl : decide ((flat0 (r :: rs)).length ≥ recSize) = true := by
+        rw [flat0_cons, List.length_append, hw.1]; simp [recSize]
+      have ht8 : (flat0 (r :: rs)).take 8 = r.take 8 := by
+        rw [flat0_cons]; exact List.take_append_of_le_length (by omega)
+      have ht : (flat0 (r :: rs)).take recSize = r := by
+        rw [flat0_cons]; exact List.take_left' (by rw [hw.1, recSize])
+      have hd : (flat0 (r :: rs)).drop recSize = flat0 rs := by
+        rw [flat0_cons, recSize, ← hw.1, List.drop_left]
+      unfold insertSorted
+      rw [hl, ht8, Bool.true_and]
+      by_cases hc : hol_dayLtB day r = true
+      · rw [if_pos (show (cmpChars (r.take 8) day == .lt) = true from hc), ht, hd,
+          ih hw.2 f (by simpa using hf), List.takeWhile_cons_of_pos hc,
+          List.dropWhile_cons_of_pos hc]
+        simp [flat0]
+      · rw [if_neg (show ¬ (cmpChars (r.take 8) day == .lt) = true from hc),
+          List.takeWhile_cons_of_neg hc, List.dropWhile_cons_of_neg hc]
+        simp [flat0]
+
+/-- in a day-sorted list without the day, the skipped records are smaller, the others are larger -/
+theorem hol_sorted_split (day : List Char) (l : List (List Char)) (hs : l.Pairwise DayLt)
+    (hnew : ∀ r ∈ l, r.take 8 ≠ day) :
+    (∀ r ∈ l.takeWhile (hol_dayLtB day), cmpChars (r.take 8) day = .lt) ∧
+    (∀ r ∈ l.dropWhile (hol_dayLtB day), cmpChars day (r.take 8) = .lt) := by
+  constructor
+  · intro r hr
+    have := List.all_eq_true.1 (List.all_takeWhile (p := hol_dayLtB day) (l := l)) r hr
+    simpa [hol_dayLtB] using this
+  · induction l with
+    | nil => intro r hr; simp at hr
+    | cons a t ih =>
+      rw [List.pairwise_cons] at hs
+      by_cases hc : hol_dayLtB day a = true
+      · rw [List.dropWhile_cons_of_pos hc]
+        exact ih hs.2 (fun r hr => hnew r (by simp [hr]))
+      · rw [List.dropWhile_cons_of_neg hc]
+        have ha : cmpChars day (a.take 8) = .lt := by
+          rcases hol_cmpChars_tri (a.take 8) day with h | h | h
+          · exact absurd (by simp [hol_dayLtB, h]) hc
+          · exact absurd h (hnew a (by simp))
+          · exact h
+        intro r hr
+        rcases List.mem_cons.1 hr with rfl | hr
+        · exact ha
+        · exact hol_cmpChars_lt_trans _ _ _ ha (hs.1 r hr)
+
+/-- `fix` with one segment is one round of `fixLoop` -/
+theorem hol_fix_single (st : HolidayState) (seg : List Char) (hl : seg.length = 18) :
+    fix st none seg = (fixLoop st.names 2 seg st.data).map (fun data => ⟨data, st.names⟩) := by
+  unfold fix
+  have : seg.isEmpty = false := by
+    cases seg with
+    | nil => simp at hl
+    | cons _ _ => rfl
+  simp only [this, Bool.false_eq_true, if_false, hl, recSize]
+
+theorem hol_fixLoop_absent (names : List String) (data seg : List Char) (hl : seg.length = 18)
+    (hg : getHoliday ⟨data, names⟩ (seg.take 8) = some none) :
+    fixLoop names 2 seg data =
+      some (if (seg.getD 8 ' ' == '~') = true then data
+        else insertSorted (seg.take 8) seg (data.length / recSize + 1) data) := by
+  have e1 : seg.take recSize = seg := List.take_of_length_le (by rw [hl, recSize]; omega)
+  have e2 : (seg.drop recSize).length < recSize := by rw [List.length_drop, hl, recSize]; omega
+  have e3 : ¬ seg.length < recSize := by rw [hl, recSize]; omega
+  rw [show (2 : Nat) = 1 + 1 from rfl, fixLoop]
+  simp only [if_neg e3, e1, hg]
+  rw [fixLoop, if_pos e2]
+
+theorem hol_fixLoop_present (names : List String) (data seg : List Char) (h : Holiday) (idx : Nat)
+    (hl : seg.length = 18) (hg : getHoliday ⟨data, names⟩ (seg.take 8) = some (some h))
+    (hi : names.findIdx? (· == h.name) = some idx) :
+    fixLoop names 2 seg data =
+      some (replaceAll (seg.take 8 ++ [Char.ofNat (idx + 48)] ++ [if h.work then '0' else '1'] ++ undash h.target)
+        (if (seg.getD 8 ' ' == '~') = true then [] else seg) data) := by
+  have e1 : seg.take recSize = seg := List.take_of_length_le (by rw [hl, recSize]; omega)
+  have e2 : (seg.drop recSize).length < recSize := by rw [List.length_drop, hl, recSize]; omega
+  have e3 : ¬ seg.length < recSize := by rw [hl, recSize]; omega
+  rw [show (2 : Nat) = 1 + 1 from rfl, fixLoop]
+  simp only [if_neg e3, e1, hg, hi]
+  rw [fixLoop, if_pos e2]
+
+theorem hol_fix_remove_absent0 (st : HolidayState) (recs : List (List Char)) (seg : List Char)
+    (hd : st.data = flat0 recs) (hw : WF0 recs) (hs : recs.Pairwise DayLt)
+    (hb : ∀ r ∈ recs, (buildForward st r).isSome = true) (hl : seg.length = 18) (hr : seg.getD 8 ' ' = '~')
+    (hnew : ∀ r ∈ recs, r.take 8 ≠ seg.take 8) :
+    fix st none seg = some ⟨st.data, st.names⟩ := by
+  have hg := hol_getHoliday_absent st recs _ hd hw hs hb (hol_take8_length seg hl) hnew
+  rw [hol_fix_single st seg hl, hol_fixLoop_absent st.names st.data seg hl hg, hr]
+  rfl
+
+theorem hol_pairwise_insert (day : List Char) (seg : List Char) (hday : seg.take 8 = day)
+    (pre post : List (List Char)) (hs : (pre ++ post).Pairwise DayLt)
+    (h1 : ∀ r ∈ pre, cmpChars (r.take 8) day = .lt) (h2 : ∀ r ∈ post, cmpChars day (r.take 8) = .lt) :
+    (pre ++ [seg] ++ post).Pairwise DayLt := by
+  rw [List.pairwise_append] at hs
+  obtain ⟨hp, hq, hpq⟩ := hs
+  rw [List.append_assoc, List.pairwise_append]
+  refine ⟨hp, ?_, ?_⟩
+  · rw [List.singleton_append, List.pairwise_cons]
+    refine ⟨?_, hq⟩
+    intro b hb
+    show cmpChars (seg.take 8) (b.take 8) = .lt
+    rw [hday]; exact h2 b hb
+  · intro a ha b hb
+    rcases List.mem_append.1 hb with hb | hb
+    · have : b = seg := by simpa using hb
+      subst this
+      show cmpChars (a.take 8) (b.take 8) = .lt
+      rw [hday]; exact h1 a ha
+    · exact hpq a ha b hb
+
+theorem hol_fix_add0 (st : HolidayState) (recs : List (List Char)) (seg : List Char)
+    (hd : st.data = flat0 recs) (hw : WF0 recs) (hs : recs.Pairwise DayLt)
+    (hb : ∀ r ∈ recs, (buildForward st r).isSome = true) (hl : seg.length = 18)
+    (hnr : seg.getD 8 ' ' ≠ '~') (hnew : ∀ r ∈ recs, r.take 8 ≠ seg.take 8) :
+    ∃ pre post, recs = pre ++ post ∧ (∀ r ∈ pre, cmpChars (r.take 8) (seg.take 8) = .lt) ∧
+      (∀ r ∈ post, cmpChars (seg.take 8) (r.take 8) = .lt) ∧
+      fix st none seg = some ⟨flat0 (pre ++ [seg] ++ post), st.names⟩ ∧
+      (pre ++ [seg] ++ post).Pairwise DayLt ∧ WF0 (pre ++ [seg] ++ post) := by
+  have hg := hol_getHoliday_absent st recs _ hd hw hs hb (hol_take8_length seg hl) hnew
+  obtain ⟨h1, h2⟩ := hol_sorted_split (seg.take 8) recs hs hnew
+  have hsplit : recs = recs.takeWhile (hol_dayLtB (seg.take 8)) ++ recs.dropWhile (hol_dayLtB (seg.take 8)) :=
+    (List.takeWhile_append_dropWhile).symm
+  refine ⟨_, _, hsplit, h1, h2, ?_, ?_, ?_⟩
+  · rw [hol_fix_single st seg hl, hol_fixLoop_absent st.names st.data seg hl hg]
+    have : (seg.getD 8 ' ' == '~') = false := by simpa using hnr
+    rw [this, hd, hol_insertSorted_flat0 _ _ recs hw _ (by rw [flat0_length _ hw, recSize]; omega)]
+    rfl
+  · exact hol_pairwise_insert _ seg rfl _ _ (hsplit ▸ hs) h1 h2
+  · rw [hsplit] at hw
+    rw [WF0_append] at hw
+    rw [WF0_append, WF0_append]
+    exact ⟨⟨hw.1, by intro r hr; have : r = seg := by simpa using hr
+                     rw [this]; exact hl⟩, hw.2⟩
+
+/-- ADD: if no record has that day and the segment is not a removal, the new table is the old records
+with `seg` inserted at its sorted place; still well-formed and sorted; all old records unchanged -/
+theorem fix_add (st : HolidayState) (recs : List Rec) (seg : List Char) (hd : st.data = flat recs) (hw : WF recs) (hs : SortedByDay recs)
+    (hb : ∀ r ∈ recs, (buildForward st r).isSome = true) (hl : seg.length = 18) (hnr : seg.getD 8 ' ' ≠ '~')
+    (hnew : ∀ r ∈ recs, dayOf r ≠ seg.take 8) :
+    ∃ pre post, recs = pre ++ post ∧ (∀ r ∈ pre, cmpChars (dayOf r) (seg.take 8) = .lt) ∧ (∀ r ∈ post, cmpChars (seg.take 8) (dayOf r) = .lt) ∧
+      fix st none seg = some ⟨flat (pre ++ ([seg] : List Rec) ++ post), st.names⟩ ∧ SortedByDay (pre ++ ([seg] : List Rec) ++ post) ∧ WF (pre ++ ([seg] : List Rec) ++ post) :=
+  hol_fix_add0 st recs seg hd hw hs hb hl hnr hnew
+
+/-- REMOVE of an absent day: nothing changes -/
+theorem fix_remove_absent (st : HolidayState) (recs : List Rec) (seg : List Char) (hd : st.data = flat recs) (hw : WF recs) (hs : SortedByDay recs)
+    (hb : ∀ r ∈ recs, (buildForward st r).isSome = true) (hl : seg.length = 18) (hr : seg.getD 8 ' ' = '~') (hnew : ∀ r ∈ recs, dayOf r ≠ seg.take 8) :
+    fix st none seg = some ⟨st.data, st.names⟩ :=
+  hol_fix_remove_absent0 st recs seg hd hw hs hb hl hr hnew
+
+/-! ### REPLACE / REMOVE of a day that is in the table
+
+`fixLoop` does not edit the record it found: it REBUILDS the 18 characters `old` from the parsed
+`Holiday` (day, index of the name in the name table, work flag, target) and calls
+`strings.Replace(data, old, new, -1)`, which replaces EVERY occurrence of these 18 characters, aligned
+to the record grid or not. So besides sortedness the theorems below need
+  * `st.names.Nodup` (else `findIdx?` may return another index than the record's name digit),
+  * the work flag of the record is '0' or '1' and its target field has no '-' (else `old ≠ r` and nothing
+    is replaced),
+  * `hol_OccursOnlyAligned`: the 18 characters of `r` occur in the table ONLY at `r`'s own position
+    (an example after the theorems shows what happens otherwise). -/
+
+theorem hol_findIdx_nodup (names : List String) (hn : names.Nodup) (i : Nat) (hi : i < names.length) :
+    names.findIdx? (· == names.getD i "") = some i := by
+  induction names generalizing i with
+  | nil => simp at hi
+  | cons x xs ih =>
+    rw [List.nodup_cons] at hn
+    cases i with
+    | zero => simp [List.findIdx?_cons]
+    | succ i =>
+      have hi' : i < xs.length := by simpa using hi
+      have hm : xs.getD i "" ∈ xs := by
+        rw [List.getD_eq_getElem?_getD, List.getElem?_eq_getElem hi']; simp
+      have hne : (x == xs.getD i "") = false := by
+        rw [beq_eq_false_iff_ne]; intro e; exact hn.1 (e ▸ hm)
+      rw [List.findIdx?_cons, List.getD_cons_succ]
+      simp only [hne, Bool.false_eq_true, if_false]
+      rw [ih hn.2 i hi']; rfl
+
+theorem hol_drop_cons_getD (l : List Char) (i : Nat) (d : Char) (h : i < l.length) :
+    l.drop i = l.getD i d :: l.drop (i + 1) := by
+  rw [List.drop_eq_getElem_cons h, List.getD_eq_getElem?_getD, List.getElem?_eq_getElem h]
+  rfl
+
+theorem hol_rec_split (r : List Char) (hr : r.length = 18) :
+    r.take 8 ++ [r.getD 8 '0'] ++ [r.getD 9 ' '] ++ r.drop 10 = r := by
+  conv => rhs; rw [← List.take_append_drop 8 r, hol_drop_cons_getD r 8 '0' (by omega),
+    hol_drop_cons_getD r 9 ' ' (by omega)]
+  simp
+
+theorem hol_undash_dashed (d : List Char) (h : ∀ c ∈ d, c ≠ '-') : undash (dashed d) = d := by
+  have hc : ¬ d.contains '-' = true := by
+    intro hc; rw [List.contains_iff_mem] at hc; exact h _ hc rfl
+  have f1 : ∀ l : List Char, (∀ c ∈ l, c ≠ '-') → l.filter (· != '-') = l := by
+    intro l hl; rw [List.filter_eq_self]; intro c hc; simpa using hl c hc
+  unfold dashed undash
+  rw [if_neg hc]
+  simp only [List.filter_append]
+  rw [f1 (d.take 4) (fun c hc => h c (List.mem_of_mem_take hc)),
+    f1 ((d.drop 4).take 2) (fun c hc => h c (List.mem_of_mem_drop (List.mem_of_mem_take hc))),
+    f1 (d.drop 6) (fun c hc => h c (List.mem_of_mem_drop hc))]
+  have e : ['-'].filter (· != '-') = [] := by decide
+  rw [e, List.append_nil, List.append_nil, show d.drop 6 = (d.drop 4).drop 2 by rw [List.drop_drop],
+    List.append_assoc, List.take_append_drop, List.take_append_drop]
+
+/-- the string `fixLoop` rebuilds from the parsed holiday is the record itself -/
+theorem hol_rebuild (st : HolidayState) (r : List Char) (h : Holiday) (hr : r.length = 18)
+    (hh : buildForward st r = some h) (hwk : r.getD 9 ' ' = '0' ∨ r.getD 9 ' ' = '1')
+    (htg : ∀ c ∈ r.drop 10, c ≠ '-') (hn : st.names.Nodup) :
+    ∃ idx, st.names.findIdx? (· == h.name) = some idx ∧
+      r.take 8 ++ [Char.ofNat (idx + 48)] ++ [if h.work then '0' else '1'] ++ undash h.target = r := by
+  unfold buildForward at hh
+  rw [if_neg (by rw [hr, recSize]; omega)] at hh
+  simp only [] at hh
+  split at hh
+  · cases hh
+  · rename_i hc
+    cases hh
+    refine ⟨(r.getD 8 '0').toNat - 48, hol_findIdx_nodup _ hn _ (by omega), ?_⟩
+    have e1 : (r.getD 8 '0').toNat - 48 + 48 = (r.getD 8 '0').toNat := by omega
+    have e2 : (if (r.getD 9 ' ' == '0') = true then '0' else '1') = r.getD 9 ' ' := by
+      rcases hwk with e | e <;> rw [e] <;> rfl
+    have e3 : (r.drop 10).take 8 = r.drop 10 :=
+      List.take_of_length_le (by rw [List.length_drop, hr]; omega)
+    simp only []
+    rw [e1, Char.ofNat_toNat, e2, e3, hol_undash_dashed _ htg]
+    exact hol_rec_split r hr
+
+theorem hol_go_none (old new : List Char) (fuel : Nat) (s : List Char)
+    (h : ∀ p, isPrefix old (s.drop p) = false) : replaceAll.go old new fuel s = s := by
+  induction fuel generalizing s with
+  | zero => rfl
+  | succ f ih =>
+    cases s with
+    | nil => rfl
+    | cons c cs =>
+      have h0 : isPrefix old (c :: cs) = false := by simpa using h 0
+      rw [replaceAll.go]
+      simp only [h0, Bool.and_false, Bool.false_eq_true, if_false]
+      rw [ih cs (fun p => by simpa using h (p + 1))]
+
+theorem hol_go_skip (old new a s : List Char) (fuel : Nat)
+    (h : ∀ p, p < a.length → isPrefix old ((a ++ s).drop p) = false) :
+    replaceAll.go old new (fuel + a.length) (a ++ s) = a ++ replaceAll.go old new fuel s := by
+  induction a with
+  | nil => rfl
+  | cons c a ih =>
+    have h0 : isPrefix old (c :: (a ++ s)) = false := by simpa using h 0 (by simp)
+    rw [List.length_cons, ← Nat.add_assoc, List.cons_append, replaceAll.go]
+    simp only [h0, Bool.and_false, Bool.false_eq_true, if_false]
+    rw [ih (fun p hp => by simpa using h (p + 1) (by simpa using hp))]
+    rfl
+
+/-- `strings.Replace` when `old` occurs exactly once -/
+theorem hol_replaceAll_unique (old new a b : List Char) (ho : old ≠ [])
+    (hocc : ∀ p, isPrefix old ((a ++ old ++ b).drop p) = true → p = a.length) :
+    replaceAll old new (a ++ old ++ b) = a ++ new ++ b := by
+  unfold replaceAll
+  have hlen : (a ++ old ++ b).length + 1 = (old.length + b.length + 1) + a.length := by
+    simp only [List.length_append]; omega
+  have hskip : ∀ p, p < a.length → isPrefix old ((a ++ (old ++ b)).drop p) = false := by
+    intro p hp
+    rw [Bool.eq_false_iff]
+    intro ht
+    have := hocc p (by rwa [List.append_assoc])
+    omega
+  rw [hlen, List.append_assoc, hol_go_skip old new a (old ++ b) _ hskip]
+  have hp : isPrefix old (old ++ b) = true := (isPrefix_iff _ _).2 ⟨b, rfl⟩
+  have hne : old.isEmpty = false := by
+    cases old with
+    | nil => exact absurd rfl ho
+    | cons _ _ => rfl
+  have hpos : 0 < old.length := by
+    cases old with
+    | nil => exact absurd rfl ho
+    | cons _ _ => simp
+  have hb : ∀ q, isPrefix old (b.drop q) = false := by
+    intro q
+    rw [Bool.eq_false_iff]
+    intro ht
+    have e : (a ++ old ++ b).drop (a.length + old.length + q) = b.drop q := by
+      rw [← List.drop_drop, ← List.length_append, List.drop_left]
+    have := hocc (a.length + old.length + q) (by rw [e]; exact ht)
+    omega
+  have hgo : replaceAll.go old new (old.length + b.length + 1) (old ++ b) = new ++ b := by
+    cases hob : old ++ b with
+    | nil =>
+      have := congrArg List.length hob
+      simp only [List.length_append, List.length_nil] at this
+      omega
+    | cons c cs =>
+      rw [replaceAll.go, ← hob]
+      simp only [hne, hp, Bool.not_false, Bool.and_self, if_true, List.drop_left]
+      rw [hol_go_none old new _ b hb]
+  rw [hgo, List.append_assoc]
+
+/-- the 18 characters of `r` occur in `flat (pre ++ [r] ++ post)` only at `r`'s own (aligned) position -/
+def hol_OccursOnlyAligned (pre : List Rec) (r : Rec) (post : List Rec) : Prop :=
+  ∀ p, isPrefix r ((flat (pre ++ ([r] : List Rec) ++ post)).drop p) = true → p = 18 * pre.length
+
+theorem hol_fix_present0 (st : HolidayState) (pre post : List (List Char)) (r seg : List Char)
+    (hd : st.data = flat0 (pre ++ [r] ++ post)) (hw : WF0 (pre ++ [r] ++ post))
+    (hs : (pre ++ [r] ++ post).Pairwise DayLt)
+    (hb : ∀ x ∈ pre ++ [r] ++ post, (buildForward st x).isSome = true) (hl : seg.length = 18)
+    (hday : r.take 8 = seg.take 8) (hn : st.names.Nodup)
+    (hwk : r.getD 9 ' ' = '0' ∨ r.getD 9 ' ' = '1') (htg : ∀ c ∈ r.drop 10, c ≠ '-')
+    (hocc : ∀ p, isPrefix r ((flat0 (pre ++ [r] ++ post)).drop p) = true → p = 18 * pre.length) :
+    fix st none seg =
+      some ⟨flat0 pre ++ (if (seg.getD 8 ' ' == '~') = true then [] else seg) ++ flat0 post, st.names⟩ := by
+  have hr : r.length = 18 := hw r (by simp)
+  have hbr := hb r (by simp)
+  rw [Option.isSome_iff_exists] at hbr
+  obtain ⟨h, hh⟩ := hbr
+  have hg := hol_getHoliday_present st pre post r h hd hw hs hb hh
+  rw [hday] at hg
+  obtain ⟨idx, hi, hold⟩ := hol_rebuild st r h hr hh hwk htg hn
+  rw [hol_fix_single st seg hl, hol_fixLoop_present st.names st.data seg h idx hl hg hi, ← hday, hold, hd]
+  have hwpre : WF0 pre := by
+    rw [WF0_append, WF0_append] at hw; exact hw.1.1
+  have hfl : flat0 (pre ++ [r] ++ post) = flat0 pre ++ r ++ flat0 post := by
+    rw [flat0_append, flat0_snoc]
+  rw [hfl] at hocc ⊢
+  rw [hol_replaceAll_unique r _ (flat0 pre) (flat0 post)
+    (by intro e; rw [e] at hr; simp at hr)
+    (by intro p hp; rw [flat0_length _ hwpre]; exact hocc p hp)]
+  rfl
+
+theorem hol_fix_replace0 (st : HolidayState) (pre post : List (List Char)) (r seg : List Char)
+    (hd : st.data = flat0 (pre ++ [r] ++ post)) (hw : WF0 (pre ++ [r] ++ post))
+    (hs : (pre ++ [r] ++ post).Pairwise DayLt)
+    (hb : ∀ x ∈ pre ++ [r] ++ post, (buildForward st x).isSome = true) (hl : seg.length = 18)
+    (hnr : seg.getD 8 ' ' ≠ '~') (hday : r.take 8 = seg.take 8) (hn : st.names.Nodup)
+    (hwk : r.getD 9 ' ' = '0' ∨ r.getD 9 ' ' = '1') (htg : ∀ c ∈ r.drop 10, c ≠ '-')
+    (hocc : ∀ p, isPrefix r ((flat0 (pre ++ [r] ++ post)).drop p) = true → p = 18 * pre.length) :
+    fix st none seg = some ⟨flat0 (pre ++ [seg] ++ post), st.names⟩ ∧
+      (pre ++ [seg] ++ post).Pairwise DayLt ∧ WF0 (pre ++ [seg] ++ post) := by
+  refine ⟨?_, ?_, ?_⟩
+  · rw [hol_fix_present0 st pre post r seg hd hw hs hb hl hday hn hwk htg hocc]
+    have : (seg.getD 8 ' ' == '~') = false := by simpa using hnr
+    rw [this, flat0_append, flat0_snoc]
+    rfl
+  · rw [List.pairwise_append, List.pairwise_append] at hs ⊢
+    obtain ⟨⟨h1, _, h2⟩, h3, h4⟩ := hs
+    refine ⟨⟨h1, by simp, ?_⟩, h3, ?_⟩
+    · intro a ha b hb'
+      have : b = seg := by simpa using hb'
+      subst this
+      have := h2 a ha r (by simp)
+      unfold DayLt at this ⊢
+      rwa [hday] at this
+    · intro a ha b hb'
+      rcases List.mem_append.1 ha with ha | ha
+      · exact h4 a (List.mem_append.2 (Or.inl ha)) b hb'
+      · have : a = seg := by simpa using ha
+        subst this
+        have := h4 r (by simp) b hb'
+        unfold DayLt at this ⊢
+        rwa [hday] at this
+  · rw [WF0_append, WF0_append] at hw ⊢
+    exact ⟨⟨hw.1.1, by intro x hx; have : x = seg := by simpa using hx
+                       rw [this]; exact hl⟩, hw.2⟩
+
+theorem hol_fix_remove_present0 (st : HolidayState) (pre post : List (List Char)) (r seg : List Char)
+    (hd : st.data = flat0 (pre ++ [r] ++ post)) (hw : WF0 (pre ++ [r] ++ post))
+    (hs : (pre ++ [r] ++ post).Pairwise DayLt)
+    (hb : ∀ x ∈ pre ++ [r] ++ post, (buildForward st x).isSome = true) (hl : seg.length = 18)
+    (hr : seg.getD 8 ' ' = '~') (hday : r.take 8 = seg.take 8) (hn : st.names.Nodup)
+    (hwk : r.getD 9 ' ' = '0' ∨ r.getD 9 ' ' = '1') (htg : ∀ c ∈ r.drop 10, c ≠ '-')
+    (hocc : ∀ p, isPrefix r ((flat0 (pre ++ [r] ++ post)).drop p) = true → p = 18 * pre.length) :
+    fix st none seg = some ⟨flat0 (pre ++ post), st.names⟩ ∧ (pre ++ post).Pairwise DayLt ∧ WF0 (pre ++ post) := by
+  refine ⟨?_, ?_, ?_⟩
+  · rw [hol_fix_present0 st pre post r seg hd hw hs hb hl hday hn hwk htg hocc, hr, flat0_append]
+    simp
+  · rw [List.pairwise_append, List.pairwise_append] at hs
+    rw [List.pairwise_append]
+    obtain ⟨⟨h1, _, _⟩, h3, h4⟩ := hs
+    exact ⟨h1, h3, fun a ha b hb' => h4 a (List.mem_append.2 (Or.inl ha)) b hb'⟩
+  · rw [WF0_append, WF0_append] at hw
+    rw [WF0_append]
+    exact ⟨hw.1.1, hw.2⟩
+
+/-- REPLACE of a present day: the record `r` with the segment's day becomes `seg`, nothing else changes.
+Extra hypotheses (all needed, see the comment above): distinct names, work flag '0'/'1', no '-' in
+the target field, and `r` occurs as a character string only at its own aligned position. -/
+theorem fix_replace (st : HolidayState) (pre post : List Rec) (r : Rec) (seg : List Char)
+    (hd : st.data = flat (pre ++ ([r] : List Rec) ++ post)) (hw : WF (pre ++ ([r] : List Rec) ++ post))
+    (hs : SortedByDay (pre ++ ([r] : List Rec) ++ post))
+    (hb : ∀ x ∈ pre ++ ([r] : List Rec) ++ post, (buildForward st x).isSome = true) (hl : seg.length = 18)
+    (hnr : seg.getD 8 ' ' ≠ '~') (hday : dayOf r = seg.take 8) (hn : st.names.Nodup)
+    (hwk : r.getD 9 ' ' = '0' ∨ r.getD 9 ' ' = '1') (htg : ∀ c ∈ targetOf r, c ≠ '-')
+    (hocc : hol_OccursOnlyAligned pre r post) :
+    fix st none seg = some ⟨flat (pre ++ ([seg] : List Rec) ++ post), st.names⟩ ∧
+      SortedByDay (pre ++ ([seg] : List Rec) ++ post) ∧ WF (pre ++ ([seg] : List Rec) ++ post) :=
+  hol_fix_replace0 st pre post r seg hd hw hs hb hl hnr hday hn hwk htg hocc
+
+/-- REMOVE of a present day: the record `r` with the segment's day disappears, nothing else changes
+(same extra hypotheses as `fix_replace`) -/
+theorem fix_remove_present (st : HolidayState) (pre post : List Rec) (r : Rec) (seg : List Char)
+    (hd : st.data = flat (pre ++ ([r] : List Rec) ++ post)) (hw : WF (pre ++ ([r] : List Rec) ++ post))
+    (hs : SortedByDay (pre ++ ([r] : List Rec) ++ post))
+    (hb : ∀ x ∈ pre ++ ([r] : List Rec) ++ post, (buildForward st x).isSome = true) (hl : seg.length = 18)
+    (hr : seg.getD 8 ' ' = '~') (hday : dayOf r = seg.take 8) (hn : st.names.Nodup)
+    (hwk : r.getD 9 ' ' = '0' ∨ r.getD 9 ' ' = '1') (htg : ∀ c ∈ targetOf r, c ≠ '-')
+    (hocc : hol_OccursOnlyAligned pre r post) :
+    fix st none seg = some ⟨flat (pre ++ post), st.names⟩ ∧ SortedByDay (pre ++ post) ∧ WF (pre ++ post) :=
+  hol_fix_remove_present0 st pre post r seg hd hw hs hb hl hr hday hn hwk htg hocc
+
+/-- `hol_OccursOnlyAligned` is necessary, kernel-checked: three well-formed, buildable records, strictly
+sorted by day, distinct names; the 18 characters of the third record `r` (day 20000101) also occur at
+offset 10, across the boundary of the first two records (target field of the first ++ first ten
+characters of the second). Removing day 20000101 makes `strings.Replace` delete BOTH occurrences:
+the result is ONE corrupted record (head of the first ++ tail of the second) instead of the first two
+records. -/
+example :
+    let a := "001000010020000101".toList
+    let b := "002000010120000102".toList
+    let r := "200001010020000101".toList
+    let st : HolidayState := ⟨flat0 [a, b, r], ["a"]⟩
+    WF0 [a, b, r] ∧ [a, b, r].Pairwise (fun x y => cmpChars (x.take 8) (y.take 8) = .lt) ∧
+      (∀ x ∈ [a, b, r], (buildForward st x).isSome = true) ∧
+      isPrefix r (st.data.drop 10) = true ∧
+      (fix st none "20000101~~~~~~~~~~".toList).map (·.data) = some "001000010020000102".toList ∧
+      flat0 [a, b] = "001000010020000101002000010120000102".toList :=
+  ⟨WF0_of_all _ (by decide), by decide, by decide, by decide, by decide, by decide⟩
+
 /-! ## workday stepping -/
 
-theorem nextDay_add' (s r t : Solar) (a b : Int) (hv : s.valid = true)
+theorem hol_nextDay_add' (s r t : Solar) (a b : Int) (hv : s.valid = true)
     (h1 : s.nextDay a = some r) (h2 : r.nextDay b = some t) : s.nextDay (a + b) = some t := by
   obtain ⟨r', e, hrv, hj, a1, a2, a3⟩ := nextDay_spec_strong s a hv
   rw [h1] at e
@@ -760,7 +1397,7 @@ theorem nextDay_add' (s r t : Solar) (a b : Int) (hv : s.valid = true)
   congr 1
   exact solar_eq_of_jdn u t huv htv (by omega) (by omega) (by omega) (by omega)
 
-theorem nextDay_zero' (s : Solar) (hv : s.valid = true) : s.nextDay 0 = some s := by
+theorem hol_nextDay_zero' (s : Solar) (hv : s.valid = true) : s.nextDay 0 = some s := by
   obtain ⟨u, eu, huv, hj, d1, d2, d3⟩ := nextDay_spec_strong s 0 hv
   rw [eu]
   congr 1
@@ -794,7 +1431,7 @@ theorem workLoop_spec (st : HolidayState) (s : Solar) (hv : s.valid = true) (add
       | some o' =>
         have hj' : s.nextDay (add * ((j : Int) + 1)) = some o' := by
           rw [Int.mul_add, Int.mul_one]
-          exact nextDay_add' s o o' _ _ hv hj hnd
+          exact hol_nextDay_add' s o o' _ _ hv hj hnd
         have hj'' : s.nextDay (add * ((j + 1 : Nat) : Int)) = some o' := by
           rw [Int.natCast_add, Int.natCast_one]; exact hj'
         cases hw : isWorkday st o' with
@@ -824,7 +1461,7 @@ theorem nextWorkday_spec (st : HolidayState) (s r : Solar) (n : Int) (fuel : Nat
   unfold nextWorkday at h
   rw [if_neg hn] at h
   have h0 : s.nextDay ((if n < 0 then -1 else 1) * ((0 : Nat) : Int)) = some s := by
-    rw [Int.natCast_zero, Int.mul_zero]; exact nextDay_zero' s hv
+    rw [Int.natCast_zero, Int.mul_zero]; exact hol_nextDay_zero' s hv
   rcases workLoop_spec st s hv _ fuel _ s r 0 h0 h with ⟨h1, _⟩ | ⟨h1, k, hk1, hk2, hk3⟩
   · omega
   · exact ⟨h1, k, by omega, hk2, by rw [hk3]; simp [workdaysBetween]⟩
@@ -834,10 +1471,16 @@ theorem nextWorkday_zero (st : HolidayState) (s : Solar) (fuel : Nat) : nextWork
 
 #print axioms findForward_spec
 #print axioms findBackward_spec
+#print axioms alignedRecords_flat
 #print axioms backward_view_eq_filter
+#print axioms hol_backwardOld_view_eq_filter
 #print axioms forwardRun_spec
 #print axioms forward_view_eq_filter
 #print axioms backward_contiguity_necessary
+#print axioms fix_add
+#print axioms fix_remove_absent
+#print axioms fix_replace
+#print axioms fix_remove_present
 #print axioms nextWorkday_spec
 #print axioms nextWorkday_zero
 end Model
